@@ -17,8 +17,8 @@ use refmodel::tval::{ALL_TT, Gen, GenCfg, TT, TVal, directed_values};
 use serde_json::{Value, json};
 
 use crate::c09::SAFE_WP;
-use crate::codecs::{Reader, WP};
-use crate::interp::{Ops, ReadErr, from_ttype, read_val, read_val_async};
+use pcodec::codecs::{Reader, WP};
+use pcodec::interp::{Ops, ReadErr, from_ttype, read_val, read_val_async};
 
 pub struct C12;
 
